@@ -734,6 +734,9 @@ class Ctx(object):
         if r == z3.unsat:
             st.discharged += 1
             eng.note_sample(self, name, t, 'unsat')
+            if eng.cross_left > 0:
+                eng.cross_left -= 1
+                self._cross_check(name, t)
             return True
         if r == z3.sat:
             # prefer an interior model (survives rounding to doubles)
@@ -750,6 +753,38 @@ class Ctx(object):
             return False
         eng.inconclusive.append({'check': name, 'config': eng.config_name, 'why': 'solver unknown'})
         return False
+
+    def _cross_check(self, name, t):
+        """Re-decide a discharged obligation with cvc5 (second solver).  `unsat` = agreement,
+        `unknown`/timeout is recorded and decides nothing, `sat` is a harness error."""
+        eng = self.engine
+        try:
+            import cvc5
+            s = z3.Solver()
+            for p in self.pc:
+                s.add(p)
+            s.add(t)
+            txt = s.to_smt2()
+            tm = cvc5.TermManager() if hasattr(cvc5, 'TermManager') else None
+            slv = cvc5.Solver(tm) if tm is not None else cvc5.Solver()
+            slv.setOption('tlimit-per', '10000')
+            slv.setLogic('ALL')
+            parser = cvc5.InputParser(slv)
+            parser.setStringInput(cvc5.InputLanguage.SMT_LIB_2_6, txt, 'obligation')
+            sm = parser.getSymbolManager()
+            res = 'unknown'
+            while True:
+                cmd = parser.nextCommand()
+                if cmd.isNull():
+                    break
+                out = str(cmd.invoke(slv, sm)).strip()
+                if out in ('sat', 'unsat', 'unknown'):
+                    res = out
+        except Exception as e:      # parser / option differences: recorded, decides nothing
+            res = 'error:%s' % type(e).__name__
+        eng.notes.setdefault('cross_engine_cvc5', []).append([eng.config_name, name, res])
+        if res == 'sat':
+            eng.inconclusive.append({'check': name, 'config': eng.config_name, 'why': 'z3 says unsat, cvc5 says sat'})
 
     def _fresh_solve(self, t):
         """Portfolio for an obligation the incremental solver could not decide: the
@@ -952,7 +987,7 @@ class ConcreteCtx(object):
 class Engine(object):
     def __init__(self, config_name='', mode='precise', max_depth=600, query_timeout_s=60,
                  final_timeout_s=60, first_timeout_s=4, check_div=True, max_paths=None, margin=1e-6,
-                 square_abs=False, max_concretize=64, validate=200, budget_s=None, dry=False, domain_checks=True, path_timeout_s=300):
+                 square_abs=False, max_concretize=64, validate=200, budget_s=None, dry=False, domain_checks=True, path_timeout_s=300, cross_solver=0):
         self.config_name = config_name
         self.mode = mode
         self.max_depth = max_depth
@@ -969,6 +1004,7 @@ class Engine(object):
         self.dry = dry
         self.domain_checks = domain_checks
         self.path_timeout_s = int(path_timeout_s)
+        self.cross_left = int(cross_solver)
         self.rlimit = int(max(query_timeout_s, final_timeout_s) * 4000000)
         self.stats = Stats()
         self.work = []
